@@ -23,6 +23,12 @@ inductive ConsistencyError where
   | parentChildLoop | siblingsLoop
   deriving DecidableEq, Repr
 
+instance : DecidableEq (Except NodeError Unit)
+  | .ok (), .ok () => isTrue rfl
+  | .error e, .error e' => if h : e = e' then isTrue (by rw [h]) else isFalse (fun h' => h (by cases h'; rfl))
+  | .ok (), .error _ => isFalse (fun h => by cases h)
+  | .error _, .ok () => isFalse (fun h => by cases h)
+
 /-- `relations::connect_neighbors`. -/
 def connectNeighbors (a : Arena) (parent previous next : Option NodeId) : Step Unit :=
   -- let (mut parent_first_child, mut parent_last_child) = parent.map(|id| &arena[id]).map_or(…)
